@@ -53,6 +53,20 @@ def fresh_import(prop):
     prop.setup()
 
 
+class StrOnly:
+    """an address-like object that offers nothing but __str__ (never equal to anything by ==)"""
+    def __init__(self, text):
+        self._t = text
+
+    def __str__(self):
+        return ''.join(list(self._t))
+
+    def __eq__(self, other):
+        return False
+
+    __hash__ = None
+
+
 def run_hist(prop, steps):
     """-> (outputs joined by '|', [hex of each signature produced, in order])"""
     fresh_import(prop)
@@ -106,10 +120,45 @@ def run_hist(prop, steps):
             return b58check_decode(str(addrs[t[1]]))
         if op == 'U':
             return b58check_decode(str(addrs[t[1]]))
+        if op == 'Q':
+            sg, rid = regs[t[2]].sign_compact(bytes.fromhex(t[3]))
+            sigs[t[1]] = bytes([27 + rid + (4 if regs[t[2]].is_compressed else 0)]) + bytes(sg)
+            aux.append((bytes(sg) + bytes([rid])).hex())
+            return 'ok'
+        if op == 'CK':
+            regs[t[1]] = K.CECKey()
+            return 'ok'
+        if op == 'CS':
+            regs[t[1]].set_secretbytes(unhx(t[2]))
+            return 'ok'
+        if op == 'CC':
+            regs[t[1]].set_compressed(t[2] == '1')
+            return 'ok'
+        if op == 'CP':
+            return '1' if regs[t[1]].set_pubkey(unhx(t[2])) is not None else '0'
+        if op == 'CG':
+            return bytes(regs[t[1]].get_pubkey()).hex()
+        if op == 'CV':
+            return '1' if regs[t[1]].verify(bytes.fromhex(t[2]), sig(t[3])) else '0'
+        if op == 'CN':
+            sg = regs[t[2]].sign(bytes.fromhex(t[3]))
+            sigs[t[1]] = bytes(sg)
+            aux.append(hx(bytes(sg)))
+            return 'ok'
+        if op == 'CQ':
+            sg, rid = regs[t[2]].sign_compact(bytes.fromhex(t[3]))
+            sigs[t[1]] = bytes([27 + rid]) + bytes(sg)
+            aux.append((bytes(sg) + bytes([rid])).hex())
+            return 'ok'
+        if op == 'CR':
+            sg = sig(t[3])
+            h = bytes.fromhex(t[2])
+            return str(regs[t[1]].recover(sg[1:33], sg[33:65], h, len(h), (sg[0] - 27) & 3, 0))
         if op == 'E':
             h160 = C.Hash160(pub(t[2]))
-            addrs[t[1]] = W.P2SHBitcoinAddress.from_bytes(h160) if t[3] == 'p2sh' else \
-                W.P2WPKHBitcoinAddress.from_bytes(0, h160)
+            addrs[t[1]] = {'p2sh': lambda: W.P2SHBitcoinAddress.from_bytes(h160),
+                           'segwit': lambda: W.P2WPKHBitcoinAddress.from_bytes(0, h160),
+                           'p2wsh': lambda: W.P2WSHBitcoinAddress.from_bytes(0, hashlib.sha256(h160).digest())}[t[3]]()
             aux.append(str(addrs[t[1]]).encode('ascii').hex())
             return 'ok'
         if op == 'M':
@@ -121,7 +170,16 @@ def run_hist(prop, steps):
             r = K.CPubKey.recover_compact(SM.BitcoinMessage(uncps(t[1])).GetHash(), sig(t[2]))
             return 'False' if r is False else bytes(r).hex()
         if op == 'Y':
-            return '1' if SM.VerifyMessage(addrs[t[1]], SM.BitcoinMessage(uncps(t[2])),
+            # the address operand: the object itself, `name~` an equal-but-not-identical str of it, `name^` an object
+            # that offers nothing but __str__ and is == to nothing (VerifyMessage may only use str(address))
+            nm = t[1]
+            if nm.endswith('~'):
+                addr = ''.join(list(str(addrs[nm[:-1]])))
+            elif nm.endswith('^'):
+                addr = StrOnly(str(addrs[nm[:-1]]))
+            else:
+                addr = addrs[nm]
+            return '1' if SM.VerifyMessage(addr, SM.BitcoinMessage(uncps(t[2])),
                                            base64.b64encode(sig(t[3]))) else '0'
         raise ValueError('step ' + op)
 
@@ -213,6 +271,7 @@ def gen_pub_history(rng, mat):
     ev += [('Pbad', j) for j in range(nbad)]
     rng.shuffle(ev)
     steps, keys, pubs, bads, sigs = [], [], [], [], []               # names of live objects; sigs: (name, key index, digest)
+    nsig, later = [0], []                                            # signatures made inside a burst become usable after it
 
     def check_all(p):
         cs = []
@@ -232,6 +291,14 @@ def gen_pub_history(rng, mat):
         for o in keys:
             if rng.random() < p:
                 cs.append('B ' + o[0])
+            if rng.random() < p / 2:        # more signatures / compact signatures by an object already observed otherwise
+                nsig[0] += 1
+                sn = 'g%d' % nsig[0]
+                cs.append('G %s %s %s' % (sn, o[0], h2))
+                later.append((sn, o[1], h2))
+            if rng.random() < p / 2:
+                nsig[0] += 1
+                cs.append('Q q%d %s %s' % (nsig[0], o[0], rng.choice([h, h2])))
         rng.shuffle(cs)
         return cs
 
@@ -261,6 +328,8 @@ def gen_pub_history(rng, mat):
                 if tgt:
                     steps += ['V %s %s %s' % (tgt[0][0], d, sn), 'V %s %s %s' % (nm, d, sn)]
         steps += check_all(0.5)
+        sigs += later
+        del later[:]
     # sign twice with the same key over the same digest; a second digest; then the whole matrix, shuffled
     for (nm, i) in list(keys)[:2]:
         sn = 't' + nm
@@ -318,7 +387,7 @@ def gen_msg_history(rng, mat):
                 cs.append('X %s %s' % (cps(tx), sn))
             for a in addrs:
                 if rng.random() < p:
-                    cs.append('Y %s %s %s' % (a, cps(tx), sn))
+                    cs.append('Y %s%s %s %s' % (a, rng.choice(['', '', '~', '^']), cps(tx), sn))
         if sigs and addrs and rng.random() < p:
             sn, tx = rng.choice(sigs)
             cs.append('Y %s %s %s' % (rng.choice(addrs), cps(tx + '!'), sn))       # another message
@@ -338,7 +407,7 @@ def gen_msg_history(rng, mat):
         steps.append('D %s %s' % (a, nm))
         addrs.append(a)
         if rng.random() < .8:                       # other address TYPES carrying the same hash160
-            for kind in ('p2sh', 'segwit'):
+            for kind in ('p2sh', 'segwit', 'p2wsh'):
                 e = 'e%s%s' % (kind[0], nm)
                 steps.append('E %s %s %s' % (e, nm, kind))
                 addrs.append(e)
@@ -362,4 +431,67 @@ def gen_msg_history(rng, mat):
         steps.append('D %s %s' % (a, rng.choice(keys)))
         addrs.append(a)
     steps += checks(1.0)
+    return steps
+
+
+def gen_eckey_history(rng, mat):
+    """C13 (P1/P2): ONE low-level CECKey object driven through set_secretbytes / set_pubkey / set_compressed / recover
+    with different values one after another (also after a call that failed), observed through get_pubkey, verify, sign,
+    sign_compact in every order.  Two helper objects supply signatures of two different keys."""
+    (sa, pca, pua), (sb, pcb, pub) = rng.sample(mat, 2)
+    h = bytes(rng.randrange(256) for _ in range(32)).hex()
+    A, B = sa.to_bytes(32, 'big').hex(), sb.to_bytes(32, 'big').hex()
+    steps = ['CK a', 'CS a ' + A, 'CN sa a ' + h, 'CQ qa a ' + h, 'CK b', 'CS b ' + B, 'CN sb b ' + h, 'CQ qb b ' + h,
+             'CK e', 'CV e %s sa' % h]
+    st = dict(sec=None, pub=None)                 # tracker: which key's secret / public part `e` holds
+    n = [0]
+
+    def observers(k):
+        obs = []
+        for _ in range(k):
+            o = rng.choice(['CG', 'CV', 'CV', 'CN', 'CQ', 'CC'])
+            if o == 'CG' and st['pub'] in ('A', 'B'):
+                obs.append('CG e')
+            elif o == 'CV' and st['pub'] != 'undef':
+                obs.append('CV e %s %s' % (h, rng.choice(['sa', 'sb'] + (['se'] if n[0] else []))))
+            elif o == 'CN' and st['sec']:
+                n[0] += 1
+                obs.append('CN se e ' + h)
+            elif o == 'CQ' and st['sec'] and st['pub'] in ('A', 'B'):
+                obs.append('CQ qe e ' + h)
+            elif o == 'CC':
+                obs.append('CC e %d' % rng.randrange(2))
+        return obs
+
+    def setter():
+        o = rng.choice(['CS', 'CS', 'CSbad', 'CP', 'CP', 'CPbad', 'CPinf', 'CR', 'CRbad'])
+        if o == 'CS':
+            w = rng.choice('AB')
+            st['sec'] = st['pub'] = w
+            return ['CS e ' + (A if w == 'A' else B)]
+        if o == 'CSbad':                                  # ValueError before anything is touched
+            return ['CS e ' + rng.choice([A[:-2], A + '00', '-'])]
+        if o == 'CP':
+            w = rng.choice('AB')
+            st['pub'] = w
+            pc, pu = (pca, pua) if w == 'A' else (pcb, pub)
+            return ['CP e ' + rng.choice(pub_forms(pc, pu)).hex()]
+        if o == 'CPbad':
+            st['pub'] = 'undef'
+            return ['CP e ' + hx(pub_invalid(rng, pca, pua))]
+        if o == 'CPinf':
+            st['pub'] = 'inf'
+            return ['CP e 00']
+        if o == 'CR':
+            w = rng.choice('AB')
+            st['pub'] = w
+            return ['CR e %s %s' % (h, 'qa' if w == 'A' else 'qb')]
+        return ['CR e %s =%s' % (h, nolift_sig(rng, False).hex())]      # fails (0): the object keeps what it had
+
+    for _ in range(rng.randint(10, 16)):
+        steps += setter()
+        steps += observers(rng.randint(2, 5))
+    # a successful set right after a failed one must take effect
+    steps += ['CP e ' + (b'\x04' + pua[1:33] + bytes(32)).hex(), 'CP e ' + pcb.hex(), 'CG e', 'CV e %s sb' % h,
+              'CV e %s sa' % h]
     return steps
